@@ -39,7 +39,7 @@ def make_trace(mod, verif_seed, pid, tier, idx):
 
 # ---- worker ---------------------------------------------------------------------------------------
 
-def _exec_trace(pid: str, trace: dict, collect_log=False) -> dict:
+def _exec_one(pid: str, trace: dict, collect_log=False) -> dict:
     mod = load_prop(pid)
     known = findings.known_for(pid)
     faulthandler.dump_traceback_later(RUN_TIMEOUT_S, exit=True)
@@ -51,16 +51,86 @@ def _exec_trace(pid: str, trace: dict, collect_log=False) -> dict:
         faulthandler.cancel_dump_traceback_later()
 
 
+def _exec_trace(pid: str, trace: dict, collect_log=False) -> dict:
+    """Execute a trace in THIS process.  A *session* ({"session": [trace, ...]}) executes its members in order in one
+    process (several documents in one process: module- or class-level state of the code under test carries over); the
+    verdict is that of the last member."""
+    if "session" not in trace:
+        return _exec_one(pid, trace, collect_log)
+    digests = []
+    res = None
+    known = {}
+    for t in trace["session"]:
+        res = _exec_one(pid, t, collect_log)
+        digests.append(res["digest"])
+        for k, n in res["known_hits"].items():
+            known[k] = known.get(k, 0) + n
+        if res["error"]:
+            break
+    res = dict(res)
+    res["digest"] = hashlib.sha256("".join(digests).encode()).hexdigest()
+    res["known_hits"] = known
+    return res
+
+
+def _in_child(fn, *args):
+    """Run fn(*args) in a forked child and return its result: the child starts from this process's state and whatever it
+    does to module-level state of the code under test dies with it."""
+    import pickle
+    import traceback
+    r, w_ = os.pipe()
+    cpid = os.fork()
+    if cpid == 0:
+        code = 0
+        try:
+            os.close(r)
+            try:
+                data = pickle.dumps(("ok", fn(*args)))
+            except BaseException:  # noqa: BLE001
+                data = pickle.dumps(("err", traceback.format_exc()))
+            with os.fdopen(w_, "wb") as f:
+                f.write(data)
+            from .disk import cleanup_scratch
+            cleanup_scratch()
+        except BaseException:  # noqa: BLE001
+            code = 3
+        finally:
+            os._exit(code)
+    os.close(w_)
+    with os.fdopen(r, "rb") as f:
+        data = f.read()
+    os.waitpid(cpid, 0)
+    if not data:
+        raise RuntimeError("child process died (timeout or crash)")
+    tag, out = pickle.loads(data)
+    if tag == "err":
+        raise RuntimeError("child raised:\n" + out)
+    return out
+
+
+def _exec_isolated(pid: str, trace: dict, collect_log=False) -> dict:
+    return _in_child(_exec_trace, pid, trace, collect_log)
+
+
+def _chunk_traces(mod, pid, tier, verif_seed, idxs, pinned):
+    if pinned:
+        allp = mod.pinned_traces(tier)
+        return [allp[i] for i in idxs]
+    return [make_trace(mod, verif_seed, pid, tier, i) for i in idxs]
+
+
 def _work(args):
+    """One chunk = one process history: the chunk's traces run one after another in a forked child."""
+    return _in_child(_work_inner, args)
+
+
+def _work_inner(args):
     pid, tier, verif_seed, idxs, pinned = args
     mod = load_prop(pid)
     out = []
-    for idx in idxs:
-        if pinned:
-            trace = mod.pinned_traces(tier)[idx]
-        else:
-            trace = make_trace(mod, verif_seed, pid, tier, idx)
-        res = _exec_trace(pid, trace)
+    traces = _chunk_traces(mod, pid, tier, verif_seed, idxs, pinned)
+    for pos, (idx, trace) in enumerate(zip(idxs, traces)):
+        res = _exec_one(pid, trace)
         item = {
             "idx": idx, "pinned": pinned, "digest": res["digest"], "error": res["error"],
             "violation": res["violation"], "faults": res["faults"], "probes": res["probes"],
@@ -71,6 +141,7 @@ def _work(args):
             "states": res["states"],
             "nontrivial": bool(mod.nontrivial(trace, res)),
             "bigrams": _bigrams(trace, res),
+            "chunk": [list(idxs), pinned], "pos": pos,
         }
         if res["violation"] or res["error"]:
             item["trace"] = trace
@@ -105,7 +176,7 @@ def _pool(workers: int):
 def _fails_same(pool, pid, traces, sig):
     """Evaluate candidate traces in parallel; return index of first candidate (in order) that
     fails with the same signature, else None."""
-    futs = [pool.submit(_exec_trace, pid, t) for t in traces]
+    futs = [pool.submit(_exec_isolated, pid, t) for t in traces]
     hit = None
     for i, f in enumerate(futs):
         try:
@@ -220,6 +291,69 @@ def fresh_replay(pid: str, path: str):
     return p.returncode, sig, dig
 
 
+def _report_isolated(pool, pid, tier, first, sig):
+    """Minimise the violating trace on its own and confirm it in a fresh interpreter."""
+    trace = first["trace"]
+    cut = dict(trace, events=trace["events"][: first["violation"]["event_index"] + 1]) \
+        if first["violation"]["event_index"] < len(trace["events"]) else trace
+    chk = _exec_isolated(pid, cut)
+    if not (chk["violation"] and chk["violation"]["sig"] == sig):
+        cut = trace
+        chk = _exec_isolated(pid, cut)
+        if not (chk["violation"] and chk["violation"]["sig"] == sig):
+            return False, "the trace does not fail when executed alone in a fresh process", None
+    small = minimise(pool, pid, cut, sig, budget_evals=600 if tier == "quick" else 3000)
+    final = _exec_isolated(pid, small)
+    if not (final["violation"] and final["violation"]["sig"] == sig):
+        return False, "minimised trace does not fail", None
+    path = write_replay(pid, small, final["violation"], final["digest"])
+    code, fsig, fdig = fresh_replay(pid, path)
+    if code == 1 and fsig == sig and fdig == final["digest"]:
+        return True, "", (path, final["violation"])
+    return False, "%s did not replay in a fresh interpreter (exit %s sig %r)" % (path, code, fsig), None
+
+
+def _report_session(pool, mod, pid, tier, verif_seed, first, sig):
+    """The failure needs the history of the process: replay the chunk's earlier traces before it (a session), minimise the
+    list of predecessors, confirm in a fresh interpreter."""
+    idxs, pinned = first["chunk"]
+    prior = _chunk_traces(mod, pid, tier, verif_seed, idxs[: first["pos"]], pinned)
+    if not prior:
+        return False, "no earlier trace in the same process", None
+    last = first["trace"]
+
+    def fails(pr):
+        r = _exec_isolated(pid, {"property": pid, "session": pr + [last]})
+        return bool(r["violation"] and r["violation"]["sig"] == sig and not r["error"]), r
+    ok, r = fails(prior)
+    if not ok:
+        return False, "does not fail as a session of %d traces either" % (len(prior) + 1), None
+    # ddmin over the predecessors
+    n = 2
+    while len(prior) >= 1:
+        size = max(1, len(prior) // n)
+        reduced = False
+        for i in range(0, len(prior), size):
+            cand = prior[:i] + prior[i + size:]
+            if fails(cand)[0]:
+                prior = cand
+                n = max(n - 1, 2)
+                reduced = True
+                break
+        if not reduced:
+            if size == 1:
+                break
+            n = min(n * 2, len(prior))
+    ok, r = fails(prior)
+    doc = {"property": pid, "seed": "session-%s" % last.get("seed"), "session": prior + [last],
+           "note": "several documents in one process: the members are executed in order, the verdict is the last one's"}
+    path = write_replay(pid, doc, r["violation"], r["digest"])
+    code, fsig, fdig = fresh_replay(pid, path)
+    if code == 1 and fsig == sig and fdig == r["digest"]:
+        return True, "", (path, r["violation"])
+    return False, "session %s did not replay in a fresh interpreter (exit %s sig %r)" % (path, code, fsig), None
+
+
 # ---- main driver ---------------------------------------------------------------------------------------------
 
 def run_check(pid: str, tier: str, verif_seed: int, workers: int = 0) -> int:
@@ -277,28 +411,20 @@ def run_check(pid: str, tier: str, verif_seed: int, workers: int = 0) -> int:
         if not harness_errors or viol_by_sig:
             for sig, lst in list(viol_by_sig.items())[:5]:
                 first = min(lst, key=lambda x: x["n_events"])
-                trace = first["trace"]
-                trace = dict(trace, events=trace["events"][: first["violation"]["event_index"] + 1]) \
-                    if first["violation"]["event_index"] < len(trace["events"]) else trace
+                ok = False
+                why = ""
                 try:
-                    chk = _exec_trace(pid, trace)
-                    if not (chk["violation"] and chk["violation"]["sig"] == sig):
-                        trace = first["trace"]
-                    small = minimise(pool, pid, trace, sig, budget_evals=600 if tier == "quick" else 3000)
-                    final = _exec_trace(pid, small)
+                    ok, why, rep = _report_isolated(pool, pid, tier, first, sig)
+                    if not ok:
+                        ok2, why2, rep = _report_session(pool, mod, pid, tier, verif_seed, first, sig)
+                        ok, why = ok2, why + " / " + why2
                 except Exception as e:  # noqa: BLE001
                     harness_errors.append("minimisation failed: %r" % e)
                     continue
-                if not final["violation"]:
-                    harness_errors.append("minimised trace does not fail: %s" % sig)
-                    continue
-                path = write_replay(pid, small, final["violation"], final["digest"])
-                code, fsig, fdig = fresh_replay(pid, path)
-                if code == 1 and fsig == sig and fdig == final["digest"]:
-                    reported.append((sig, path, len(lst), final["violation"]))
+                if ok:
+                    reported.append((sig, rep[0], len(lst), rep[1]))
                 else:
-                    harness_errors.append("HARNESS-NONDETERMINISM: %s did not replay in a fresh interpreter "
-                                          "(exit %s sig %r digest %s vs %s)" % (path, code, fsig, fdig, final["digest"]))
+                    harness_errors.append("HARNESS-NONDETERMINISM: %s: %s" % (sig, why))
 
     # ---- determinism self-test (quick: 6 seeds; thorough: 24): same trace twice in-process +
     #      fresh interpreter under another PYTHONHASHSEED
@@ -342,9 +468,9 @@ def determinism_selftest(pid, tier, verif_seed, n, items):
     # in-process re-run
     for idx in idxs:
         trace = make_trace(mod, verif_seed, pid, tier, idx)
-        r = _exec_trace(pid, trace)
+        r = _exec_isolated(pid, trace)
         if r["digest"] != base[idx]:
-            mism.append(("inproc", idx))
+            mism.append(("re-run", idx))
     # fresh interpreter under a different hash seed
     env = dict(os.environ, PYTHONHASHSEED="987654")
     try:
@@ -361,7 +487,7 @@ def determinism_selftest(pid, tier, verif_seed, n, items):
         for idx in idxs:
             if got.get(str(idx)) != base[idx]:
                 mism.append(("fresh", idx))
-    return {"seeds_checked": len(idxs), "mismatches": mism, "modes": ["in-process re-run", "fresh interpreter PYTHONHASHSEED=987654"]}
+    return {"seeds_checked": len(idxs), "mismatches": mism, "modes": ["re-run alone in a forked child", "fresh interpreter PYTHONHASHSEED=987654"]}
 
 
 def print_digests(pid, tier, verif_seed, idxs):
